@@ -17,6 +17,7 @@ type truncCase struct {
 	Size  int
 	Plain bool
 	TC    bool // TC already set before the call
+	Comp  bool `json:",omitempty"` // Compress already set before the call (a reply built by a handler that compresses)
 }
 
 // identity of a record for the prefix check: its uncompressed RFC encoding
@@ -63,7 +64,7 @@ func checkTrunc(c truncCase) error {
 	if err != nil || len(w) > 65535 {
 		return nil
 	}
-	lib, err := wm.MsgToLib(m, false)
+	lib, err := wm.MsgToLib(m, c.Comp)
 	if err != nil {
 		return nil
 	}
@@ -78,6 +79,13 @@ func checkTrunc(c truncCase) error {
 		base.Ex = []wm.Rec{m.Ex[o]}
 	}
 	bw, _ := wm.Encode(base)
+	// ... and compressed, as the library itself packs them (several questions under one long name
+	// only fit thanks to compression)
+	if bl, err := wm.MsgToLib(base, true); err == nil {
+		if bp, err := bl.Pack(); err == nil && len(bp) < len(bw) {
+			bw = bp
+		}
+	}
 
 	lib.Truncate(c.Size)
 
@@ -301,8 +309,16 @@ func genPlain(t *rapid.T) truncCase {
 		// which every "is there anything to compress" shortcut of the packer is at its edge
 		q := gen.NameOfWireLen(t, rapid.IntRange(60, 250).Draw(t, "qlen"), gen.NameOpts{Plain: true})
 		m.Q = []wm.Question{{Name: q, Type: wm.TTXT, Class: 1}}
+		for i, nq := 0, rapid.IntRange(0, 2).Draw(t, "moreq"); i < nq; i++ {
+			// further questions under the same long name: the question section itself compresses
+			qn := append(wm.Name{[]byte{"abc"[i]}}, q...)
+			if !qn.Valid() {
+				qn = q.Clone()
+			}
+			m.Q = append(m.Q, wm.Question{Name: qn.Clone(), Type: wm.TA, Class: 1})
+		}
 		var recs []wm.Rec
-		for i, n := 0, rapid.IntRange(1, 4).Draw(t, "nsparse"); i < n; i++ {
+		for i, n := 0, rapid.IntRange(0, 4).Draw(t, "nsparse"); i < n; i++ {
 			r := gen.PlainFiller(rapid.IntRange(2, 420).Draw(t, "fill"))
 			r.Name = q.Clone()
 			if len(q) > 1 && rapid.IntRange(0, 3).Draw(t, "parent") == 0 {
@@ -328,7 +344,7 @@ func genPlain(t *rapid.T) truncCase {
 			m.Ex = append(m.Ex[:pos:pos], append(opt, m.Ex[pos:]...)...)
 		}
 	}
-	return truncCase{M: m, Size: pickSize(t, m), Plain: true, TC: rapid.IntRange(0, 4).Draw(t, "tc") == 0}
+	return truncCase{M: m, Size: pickSize(t, m), Plain: true, TC: rapid.IntRange(0, 4).Draw(t, "tc") == 0, Comp: rapid.IntRange(0, 3).Draw(t, "comp") == 0}
 }
 
 func genAny(t *rapid.T) truncCase {
@@ -341,7 +357,17 @@ func genAny(t *rapid.T) truncCase {
 	}
 	mo.Types = types
 	m := gen.Msg(t, mo)
-	return truncCase{M: m, Size: pickSize(t, m), TC: rapid.IntRange(0, 4).Draw(t, "tc") == 0}
+	if rapid.IntRange(0, 7).Draw(t, "sig0") == 0 {
+		// a transaction signature that is NOT a TSIG: the SIG(0) record of RFC 2931 (root owner,
+		// class ANY, type covered 0) closes the additional section; Truncate's exemption is for TSIG only
+		sig := gen.RecOfType(t, wm.TSIG, &gen.Opts{Plain: true})
+		sig.Name, sig.Class, sig.TTL = wm.Name{}, 255, 0
+		if len(sig.Fields) > 0 {
+			sig.Fields[0].U = 0
+		}
+		m.Ex = append(m.Ex, sig)
+	}
+	return truncCase{M: m, Size: pickSize(t, m), TC: rapid.IntRange(0, 4).Draw(t, "tc") == 0, Comp: rapid.IntRange(0, 3).Draw(t, "comp") == 0}
 }
 
 func init() {
